@@ -270,6 +270,33 @@ fn eval_load(vm: &Thread, m: usize, text: &str) -> Obs {
     }
 }
 
+/// The distinct printed cycle paths of a message, canonical: `((1 0 1) (2 2))`, sorted; a name that
+/// is not `m<k>` is printed raw (the model never produces it, so it shows up as a mismatch).
+fn paths_sexp(o: &Obs) -> String {
+    let mut ps: Vec<Vec<u64>> = vec![];
+    let mut raw: Vec<String> = vec![];
+    for (_named, path) in &o.cycles {
+        let idx: Option<Vec<u64>> = path
+            .iter()
+            .map(|s| s.strip_prefix('m').and_then(|x| x.parse::<u64>().ok()))
+            .collect();
+        match idx {
+            Some(p) => ps.push(p),
+            None => raw.push(format!("raw:{}", path.join("->").replace(' ', "_"))),
+        }
+    }
+    ps.sort();
+    ps.dedup();
+    raw.sort();
+    raw.dedup();
+    let mut items: Vec<String> = ps
+        .iter()
+        .map(|p| format!("({})", p.iter().map(|x| x.to_string()).collect::<Vec<_>>().join(" ")))
+        .collect();
+    items.extend(raw);
+    format!("({})", items.join(" "))
+}
+
 /// Is a cycle reachable from `m` in the import graph of `srcs` (through modules that exist)?
 fn reaches_cycle(srcs: &[Option<Src>], m: usize) -> bool {
     fn go(srcs: &[Option<Src>], m: usize, stack: &mut Vec<usize>, done: &mut Vec<bool>) -> bool {
@@ -365,7 +392,7 @@ fn run_history(h: &[Step]) -> Value {
                 format!("(ok {} {})", live.val, ran_s)
             }
         } else {
-            format!("(err {} {})", live.primary(), ran_s)
+            format!("(err {} {} {})", live.primary(), ran_s, paths_sexp(&live))
         };
         answers.push(ans);
         classes.push(format!("{}:{}", if is_load { "load" } else { "get" }, live.primary()));
